@@ -17,6 +17,7 @@ CLAUSES = {
     "Cl_RatioLaw": "mole ratio = mass ratio * M2/M1",
     "Cl_Monotone": "strictly increasing",
     "Cl_RejectsOutside": "fractions outside [0,1] rejected on construction, inside accepted",
+    "Cl_ForeignResult": "a conversion result converted onwards under another mixture, or after its fraction was re-assigned, obeys the ratio law of the mixture and value given now",
     "KnownEvent": "every recorded event is an action of the specification",
 }
 
